@@ -32,7 +32,8 @@ F_DEV = "device/spinchain.py"
 F_PROC = "device/processor.py"
 F_MP = "device/modelprocessor.py"
 
-PURE_CALLS = {"min", "max", "str", "abs", "len", "int", "float", "range"}
+GENV = {}          # file -> module-level constants
+PURE_CALLS = {"min", "max", "str", "abs", "len", "int", "float", "range", "dict"}
 
 
 def _parse(rel):
@@ -120,10 +121,11 @@ def _is_pure(node):
 
 
 class SymExec:
-    def __init__(self, where):
+    def __init__(self, where, genv=None):
         self.where = where
         self.defs = {}
         self.k = 0
+        self.genv = dict(genv if genv is not None else GENV.get(where.split(":")[0], {}))      # module-level constants
 
     def fresh(self, expr):
         self.k += 1
@@ -141,7 +143,9 @@ class SymExec:
             p.env[name] = ast.Name(id=s, ctx=ast.Load())
 
     def run(self, stmts, p=None):
-        p = p or Path()
+        if p is None:
+            p = Path()
+            p.env = dict(self.genv)
         return self._run(list(stmts), p)
 
     def _run(self, stmts, p):
@@ -213,6 +217,27 @@ class SymExec:
         while isinstance(node, ast.Name) and node.id in self.defs:
             node = self.defs[node.id]
         return node
+
+
+def _module_env(tree, where):
+    """module-level constant bindings  NAME = <pure expression over literals, np.pi and earlier such names>  (e.g.
+    _TWO_PI = 2 * np.pi): resolved like local temporaries.  A name bound more than once at module level is refused."""
+    env = {}
+    seen = set()
+    for n in tree.body:
+        if isinstance(n, ast.Assign) and len(n.targets) == 1 and isinstance(n.targets[0], ast.Name):
+            name = n.targets[0].id
+            if name in seen:
+                if name in env:
+                    raise Broken("translator:" + where, "module constant bound twice: " + name)
+                continue
+            seen.add(name)
+            v = _subst(env, n.value)
+            ok = _is_pure(v) and all(not isinstance(x, ast.Call) for x in ast.walk(v)) and \
+                all(u(x) in ("np", "numpy", "math") or isinstance(x.ctx, ast.Store) for x in ast.walk(v) if isinstance(x, ast.Name))
+            if ok and isinstance(v, (ast.BinOp, ast.UnaryOp, ast.Constant, ast.Attribute)):
+                env[name] = v
+    return env
 
 
 def _norm_literals(conds):
@@ -510,7 +535,17 @@ def _method_body(fn, where):
     raise Broken("translator:" + where, "gate compiler body not accepted: " + u(ret)[:120])
 
 
+def _as_dict(node, where):
+    """dict literal, or dict(K=v, ...) / dict({...}, K=v)"""
+    if isinstance(node, ast.Call) and u(node.func) == "dict" and len(node.args) <= 1 and all(k.arg for k in node.keywords):
+        base = _as_dict(node.args[0], where) if node.args else ast.Dict(keys=[], values=[])
+        return ast.Dict(keys=list(base.keys) + [ast.Constant(value=k.arg) for k in node.keywords],
+                        values=list(base.values) + [k.value for k in node.keywords])
+    return node
+
+
 def _methods_of_dict(node, where):
+    node = _as_dict(node, where)
     if not isinstance(node, ast.Dict):
         raise Broken("translator:" + where, "gate_compiler table is not a dict literal: " + u(node)[:80])
     out = []
@@ -527,18 +562,28 @@ def _table_events(ex, p, where):
     out = []
     for e in p.events:
         if e[0] == "set" and e[1] == "self.gate_compiler":
-            out = _methods_of_dict(ex.resolve(e[2]), where)            # a fresh table
-        elif e[0] == "call" and isinstance(e[1], ast.Call) and u(e[1].func) == "self.gate_compiler.update" \
-                and len(e[1].args) == 1 and not e[1].keywords:
-            out += _methods_of_dict(ex.resolve(e[1].args[0]), where)
+            out = _methods_of_dict(_as_dict(ex.resolve(e[2]), where), where)            # a fresh table
+        elif e[0] == "call" and isinstance(e[1], ast.Call) and u(e[1].func) == "self.gate_compiler.update":
+            call = e[1]
+            if len(call.args) > 1 or any(k.arg is None for k in call.keywords):
+                raise Broken("translator:" + where, "gate_compiler.update arguments: " + u(call)[:100])
+            if call.args:                                  # update({...}) / update(dict(...)): entries first
+                out += _methods_of_dict(_as_dict(ex.resolve(call.args[0]), where), where)
+            if call.keywords:                              # update(ISWAP=self.iswap_compiler, ...)
+                out += _methods_of_dict(ast.Dict(keys=[ast.Constant(value=k.arg) for k in call.keywords],
+                                                 values=[k.value for k in call.keywords]), where)
         elif e[0] == "setitem" and e[1] == "self.gate_compiler":
             out += _methods_of_dict(ast.Dict(keys=[e[2]], values=[e[3]]), where)
     return out
 
 
 def _tr_compiler():
-    sc = _cls(_parse(F_SC), F_SC, "SpinChainCompiler")
-    gc = _cls(_parse(F_GC), F_GC, "GateCompiler")
+    sc_tree = _parse(F_SC)
+    sc = _cls(sc_tree, F_SC, "SpinChainCompiler")
+    gc_tree = _parse(F_GC)
+    gc = _cls(gc_tree, F_GC, "GateCompiler")
+    GENV[F_SC] = _module_env(sc_tree, F_SC)
+    GENV[F_GC] = _module_env(gc_tree, F_GC)
     if [u(b) for b in sc.bases] != ["GateCompiler"]:
         raise Broken("translator:" + F_SC, "SpinChainCompiler base classes changed")
     # base table: GateCompiler.__init__ is only searched for writes to self.gate_compiler (its other statements are
@@ -633,10 +678,11 @@ XXYY = ("tensor([sigmax(),sigmax()])+tensor([sigmay(),sigmay()])", "tensor(sigma
 def _tr_model():
     tree = _parse(F_DEV)
     m = _cls(tree, F_DEV, "SpinChainModel")
+    GENV[F_DEV] = _module_env(tree, F_DEV)
     where = F_DEV + ":SpinChainModel._set_up_controls"
     fn = _fn(m, F_DEV, "_set_up_controls")
     fams = []
-    env = {}          # temporaries bound to expressions (operator = ..., num_coupling = self._get_num_coupling())
+    env = dict(GENV[F_DEV])   # module constants + temporaries (operator = ..., num_coupling = self._get_num_coupling())
     for st in _stmts(fn):
         t = u(st)
         if t in ("controls={}", "controls=dict()", "returncontrols"):
